@@ -470,3 +470,203 @@ Proof.
     split; [eapply aext_trans; apply aext_io|]. split; [reflexivity|].
     right. repeat split; auto; discriminate.
 Qed.
+
+(* ------------------------------------------------------------------ *)
+(* Writer.ForceSeal                                                     *)
+Definition force_act (w : wseg) : act :=
+  let buf := (if ws_hdr w then 32 else 0) + index_frame_size (ws_n w) in
+  let istart := ws_off w + (if ws_hdr w then 32 else 0) + 8 in
+  let total := buf + 8 in
+  AWrite (ws_name w) (ws_off w) total {| pb_ents := []; pb_end := (ws_off w + total) mod two32; pb_seal := istart |}.
+
+Definition force_wseg (w : wseg) : wseg :=
+  let buf := (if ws_hdr w then 32 else 0) + index_frame_size (ws_n w) in
+  let istart := ws_off w + (if ws_hdr w then 32 else 0) + 8 in
+  let total := buf + 8 in
+  {| ws_name := ws_name w; ws_base := ws_base w; ws_min := ws_min w;
+     ws_limit := ws_limit w; ws_n := ws_n w; ws_off := (ws_off w + total) mod two32;
+     ws_hdr := false; ws_index_start := istart; ws_commit_idx := ws_base w + ws_n w - 1 |}.
+
+Lemma seg_force_seal_eq w e :
+  seg_force_seal w e =
+  if 0 <? ws_index_start w then (ROk, w, e)
+  else if ws_n w =? 0 then (RErrOther, w, e)
+  else
+    let '(ok1, e1) := io (force_act w) e in
+    if negb ok1 then (RErrIO, w, e1)
+    else let '(ok2, e2) := io (ASync (ws_name w)) e1 in
+         if negb ok2 then (RErrIO, w, e2)
+         else (ROk, force_wseg w, e2).
+Proof. reflexivity. Qed.
+
+Lemma force_act_form tw : exists l b, force_act tw = AWrite (ws_name tw) (ws_off tw) l b.
+Proof. unfold force_act. cbv zeta. eexists _, _. reflexivity. Qed.
+
+Lemma seg_force_seal_lock o tw e ec r tw' e' rc twc ec' : R o e ec ->
+  (o = Some (ws_name tw) -> wguard (e_disk e) (ws_name tw) (ws_off tw)) ->
+  seg_force_seal tw e = (r, tw', e') -> seg_force_seal tw ec = (rc, twc, ec') ->
+  aext ec ec' /\ e_fault ec' = None /\
+  ((r = rc /\ tw' = twc /\ R o e' ec' /\ (rc = ROk -> ws_index_start tw = 0 -> R (clr o (ws_name tw)) e' ec')) \/
+   (rc = ROk /\ ws_index_start tw = 0 /\ r = RErrIO /\ tw' = tw /\ e_fault e' = None /\
+    (e_disk e' = e_disk e \/
+     (drel (clr o (ws_name tw)) (e_disk e') (apply_act (e_disk ec) (force_act tw)) /\
+      pfx ec ec' (apply_act (e_disk ec) (force_act tw)))))).
+Proof.
+  intros HR Hg. rewrite !seg_force_seal_eq.
+  destruct (0 <? ws_index_start tw) eqn:Eis.
+  { intros E1 E2. inversion E1; inversion E2; subst. split; [apply aext_refl|]. split; [apply HR|]. left.
+    split; [reflexivity|]. split; [reflexivity|]. split; [exact HR|]. intros _ K. lia. }
+  destruct (ws_n tw =? 0).
+  { intros E1 E2. inversion E1; inversion E2; subst. split; [apply aext_refl|]. split; [apply HR|]. left.
+    split; [reflexivity|]. split; [reflexivity|]. split; [exact HR|]. discriminate. }
+  assert (His : ws_index_start tw = 0) by lia.
+  destruct (force_act_form tw) as (l & b & Ea). rewrite Ea.
+  destruct (io_lock_write o (ws_name tw) (ws_off tw) l b e ec HR Hg) as (Ec & Hr).
+  set (a := AWrite (ws_name tw) (ws_off tw) l b) in *.
+  rewrite Ec. cbn [negb].
+  assert (Ec2' : io (ASync (ws_name tw)) (io_env a ec) = (true, io_env (ASync (ws_name tw)) (io_env a ec))) by (apply io_ok; reflexivity).
+  rewrite Ec2'. cbn [negb].
+  destruct Hr as [(e1 & Er & HR1)|(e1 & Er & D & F)]; rewrite Er; cbn [negb].
+  - destruct (io_lock_sync (clr o (ws_name tw)) (ws_name tw) e1 (io_env a ec) HR1 (clr_not _ _)) as (_ & [(e2 & Er2 & HR2)|(e2 & Er2 & D2 & F2)]);
+      rewrite Er2; cbn [negb]; intros E1 E2; inversion E1; inversion E2; subst;
+      (split; [eapply aext_trans; apply aext_io|]); (split; [reflexivity|]).
+    + left. repeat split; auto; try apply HR2. apply (drel_clr_weaken o (ws_name tw)). apply HR2.
+    + right. repeat split; auto; try discriminate. right. rewrite D2. split; [apply HR1|].
+      eapply pfx_more; [apply (pfx_end ec (io_env a ec)); apply aext_io|apply aext_io].
+  - intros E1 E2; inversion E1; inversion E2; subst.
+    split; [eapply aext_trans; apply aext_io|]. split; [reflexivity|].
+    right. repeat split; auto; discriminate.
+Qed.
+
+(* ------------------------------------------------------------------ *)
+(* mutateStateLocked                                                    *)
+Definition set_failed (w : wal) : wal :=
+  {| st_next_id := st_next_id w; st_segs := st_segs w; st_tail := st_tail w;
+     st_rotate := st_rotate w; st_failed := true; st_closed := st_closed w |}.
+
+Definition tx_ps (t : txn) : pstate := {| ps_next_id := tx_next_id t; ps_segs := tx_segs t |}.
+
+(* the fault-free shadow run only extends the history *)
+Definition shok (ec ec' : env) : Prop := aext ec ec' /\ e_fault ec' = None.
+
+Lemma shok_refl ec : e_fault ec = None -> shok ec ec.
+Proof. intros H. split; [apply aext_refl|exact H]. Qed.
+Lemma shok_trans e0 e1 e2 : shok e0 e1 -> shok e1 e2 -> shok e0 e2.
+Proof. intros (A & _) (B & F). split; [eapply aext_trans; eauto|exact F]. Qed.
+Lemma shok_io a ec : shok ec (io_env a ec).
+Proof. split; [apply aext_io|reflexivity]. Qed.
+Lemma shok_add_m ec f : e_fault ec = None -> shok ec (add_m ec f).
+Proof. intros H. split; [apply aext_add_m|exact H]. Qed.
+
+Lemma sh_seg_create si ec sw ec' : e_fault ec = None -> seg_create si ec = (sw, ec') -> shok ec ec'.
+Proof.
+  intros Hf. unfold seg_create. destruct (si_base si =? 0); [intros E; inversion E; subst; apply shok_refl; exact Hf|].
+  destruct (lookup _ _).
+  - rewrite (io_ok _ _ Hf). intros E; inversion E; subst. apply shok_io.
+  - rewrite (io_ok _ _ Hf). intros E; inversion E; subst. apply shok_io.
+Qed.
+
+Lemma sh_delete_files ns : forall ec, e_fault ec = None -> shok ec (delete_files ns ec).
+Proof.
+  induction ns as [|n ns IH]; intros ec Hf; [apply shok_refl; exact Hf|].
+  unfold delete_files. cbn [fold_left]. fold (delete_files ns (snd (io (ADelete n) ec))).
+  rewrite (io_ok _ _ Hf). cbn [snd]. eapply shok_trans; [apply shok_io|apply IH; reflexivity].
+Qed.
+
+Lemma sh_seg_append tw ls ec r tw' ec' : e_fault ec = None -> seg_append tw ls ec = (r, tw', ec') -> shok ec ec'.
+Proof.
+  intros Hf. rewrite seg_append_eq. destruct ls; [intros E; inversion E; subst; apply shok_refl; exact Hf|].
+  destruct (0 <? _); [intros E; inversion E; subst; apply shok_refl; exact Hf|].
+  destruct (existsb _ _); [intros E; inversion E; subst; apply shok_refl; exact Hf|].
+  destruct (negb _); [intros E; inversion E; subst; apply shok_refl; exact Hf|].
+  rewrite (io_ok _ _ Hf). cbn [negb]. rewrite (io_ok _ _ (io_env_fault _ _)). cbn [negb].
+  intros E; inversion E; subst. eapply shok_trans; apply shok_io.
+Qed.
+
+Lemma sh_seg_force_seal tw ec r tw' ec' : e_fault ec = None -> seg_force_seal tw ec = (r, tw', ec') -> shok ec ec'.
+Proof.
+  intros Hf. rewrite seg_force_seal_eq.
+  destruct (0 <? _); [intros E; inversion E; subst; apply shok_refl; exact Hf|].
+  destruct (_ =? 0); [intros E; inversion E; subst; apply shok_refl; exact Hf|].
+  rewrite (io_ok _ _ Hf). cbn [negb]. rewrite (io_ok _ _ (io_env_fault _ _)). cbn [negb].
+  intros E; inversion E; subst. eapply shok_trans; apply shok_io.
+Qed.
+
+Lemma sh_mutate_gen defer w t ec r w' ec' dl : e_fault ec = None ->
+  mutate_gen defer w t ec = (r, w', ec', dl) -> shok ec ec'.
+Proof.
+  intros Hf. unfold mutate_gen. rewrite (io_ok _ _ Hf). cbn [negb].
+  destruct (tx_create t) as [si|].
+  - destruct (seg_create si _) as [sw e2] eqn:Es. pose proof (sh_seg_create _ _ _ _ (io_env_fault _ _) Es) as H2.
+    destruct sw; intros E; inversion E; subst.
+    + destruct defer; [eapply shok_trans; [apply shok_io|exact H2]|].
+      eapply shok_trans; [apply shok_io|]. eapply shok_trans; [exact H2|]. apply sh_delete_files. apply H2.
+    + eapply shok_trans; [apply shok_io|exact H2].
+  - intros E; inversion E; subst. destruct defer; [apply shok_io|].
+    eapply shok_trans; [apply shok_io|]. apply sh_delete_files. reflexivity.
+Qed.
+
+Lemma sh_mutate w t ec r w' ec' : e_fault ec = None -> mutate w t ec = (r, w', ec') -> shok ec ec'.
+Proof.
+  intros Hf. unfold mutate. destruct (mutate_gen false w t ec) as [[[r0 w0] e0] d0] eqn:E.
+  intros K; inversion K; subst. eapply sh_mutate_gen; eauto.
+Qed.
+
+Lemma mutate_gen_lock o defer w t e ec r w' e' dl rc wc' ec' dlc : R o e ec ->
+  mutate_gen defer w t e = (r, w', e', dl) -> mutate_gen defer w t ec = (rc, wc', ec', dlc) ->
+  (r = rc /\ w' = wc' /\ dl = dlc /\ R o e' ec' /\
+   (rc = ROk -> defer = false -> forall n, o = Some n -> In n (tx_delete t) -> R None e' ec')) \/
+  (e_fault e' = None /\ r = RErrIO /\ dl = [] /\
+   ((w' = w /\ e_disk e' = e_disk e) \/
+    (rc = ROk /\ w' = set_failed w /\ tx_create t <> None /\
+     drel o (e_disk e') (apply_act (e_disk ec) (ACommit (tx_ps t))) /\
+     pfx ec ec' (apply_act (e_disk ec) (ACommit (tx_ps t)))))).
+Proof.
+  intros HR. unfold mutate_gen. fold (tx_ps t).
+  destruct (io_lock o (ACommit (tx_ps t)) e ec HR I) as (Ec & [(e1 & Er & HR1)|(e1 & Er & D & F)]); rewrite Ec, Er; cbn [negb].
+  2:{ intros E1 _. inversion E1; subst. right. auto 10. }
+  set (ec1 := io_env (ACommit (tx_ps t)) ec) in *.
+  destruct (tx_create t) as [si|] eqn:Etc.
+  - destruct (seg_create si e1) as [sw e2] eqn:Es. destruct (seg_create si ec1) as [swc ec2] eqn:Esc.
+    destruct (seg_create_lock o si e1 ec1 sw e2 swc ec2 HR1 Es Esc) as (A1 & A2 & [(-> & HR2)|(-> & -> & D & F & Dc)]).
+    + destruct swc as [sw|].
+      * destruct defer; intros E1 E2; inversion E1; inversion E2; subst; left.
+        -- repeat split; auto; try apply HR2. discriminate.
+        -- destruct (delete_files_lock o (tx_delete t) e2 ec2 HR2) as (B1 & _ & _ & _ & _ & B6).
+           split; [reflexivity|]. split; [reflexivity|]. split; [reflexivity|]. split; [exact B1|].
+           intros _ _ n Ho Hin. apply (B6 n Ho Hin).
+      * intros E1 E2; inversion E1; inversion E2; subst. left.
+        split; [reflexivity|]. split; [reflexivity|]. split; [reflexivity|]. split; [exact HR2|]. discriminate.
+    + intros E1. inversion E1; subst. intros E2. right.
+      split; [exact F|]. split; [reflexivity|]. split; [reflexivity|]. right.
+      assert (Hsh : shok ec2 ec' /\ rc = ROk).
+      { destruct defer; inversion E2; subst; (split; [|reflexivity]); [apply shok_refl; exact A2|apply sh_delete_files; exact A2]. }
+      destruct Hsh as (Hsh & ->).
+      split; [reflexivity|]. split; [reflexivity|]. split; [discriminate|].
+      split; [rewrite D; apply HR1|].
+      eapply pfx_more; [apply (pfx_end ec ec1); apply aext_io|]. eapply aext_trans; [exact A1|apply Hsh].
+  - destruct defer; intros E1 E2; inversion E1; inversion E2; subst; left.
+    + repeat split; auto; try apply HR1. discriminate.
+    + destruct (delete_files_lock o (tx_delete t) e1 ec1 HR1) as (B1 & _ & _ & _ & _ & B6).
+      split; [reflexivity|]. split; [reflexivity|]. split; [reflexivity|]. split; [exact B1|].
+      intros _ _ n Ho Hin. apply (B6 n Ho Hin).
+Qed.
+
+Lemma mutate_lock o w t e ec r w' e' rc wc' ec' : R o e ec ->
+  mutate w t e = (r, w', e') -> mutate w t ec = (rc, wc', ec') ->
+  (r = rc /\ w' = wc' /\ R o e' ec' /\
+   (rc = ROk -> forall n, o = Some n -> In n (tx_delete t) -> R None e' ec')) \/
+  (e_fault e' = None /\ r = RErrIO /\
+   ((w' = w /\ e_disk e' = e_disk e) \/
+    (rc = ROk /\ w' = set_failed w /\ tx_create t <> None /\
+     drel o (e_disk e') (apply_act (e_disk ec) (ACommit (tx_ps t))) /\
+     pfx ec ec' (apply_act (e_disk ec) (ACommit (tx_ps t)))))).
+Proof.
+  intros HR. unfold mutate.
+  destruct (mutate_gen false w t e) as [[[r0 w0] e0] d0] eqn:E1.
+  destruct (mutate_gen false w t ec) as [[[rc0 wc0] ec0] dc0] eqn:E2.
+  intros K1 K2; inversion K1; inversion K2; subst.
+  destruct (mutate_gen_lock o false w t e ec _ _ _ _ _ _ _ _ HR E1 E2) as [(A & B & C & D & E)|(A & B & C & D)].
+  - left. split; [exact A|]. split; [exact B|]. split; [exact D|]. intros Hr n Ho Hin. apply (E Hr eq_refl n Ho Hin).
+  - right. auto.
+Qed.
